@@ -879,6 +879,7 @@ func genC07(r *Rng, tier string) []Case {
 			perProp[d.prop]++
 		}
 		per := budget / (len(chosen) + 1)
+		longDone := 0
 		for _, a := range chosen {
 			b := unhx(a[d.arg])
 			emit(a, b, "seed")
@@ -891,6 +892,21 @@ func genC07(r *Rng, tier string) []Case {
 			}
 			for _, m := range ms {
 				emit(a, m.b, m.tag)
+			}
+			if d.text && len(b) > 0 && longDone < 4 {
+				longDone++
+				// one long input per text op (the first seed, repeated behind a separator up to ~40 000 bytes): run on the
+				// implementation only — no panic, no time-out, and the allocation audit's linear allowance (a decoder that
+				// builds its result by repeated concatenation allocates quadratically and is far outside it here)
+				for _, sep := range []string{",", ""} {
+					long := make([]byte, 0, 41000)
+					for len(long) < 40000 {
+						long = append(append(long, b...), sep...)
+					}
+					forceNoM = true
+					emit(a, long, "text.long")
+					forceNoM = false
+				}
 			}
 			// offsets of the two-argument LLMNR ops: extremes beside the buffer
 			if len(a) == 2 && (d.op == "c09.decname" || strings.HasPrefix(d.op, "c07.llmnr.")) {
